@@ -546,17 +546,19 @@ class TextScenario(Scenario):
                 # a transient stat error other than ENOENT/EACCES while the file is being replaced; the file
                 # itself stays readable
                 _FAIL_FOR.discard(threading.get_ident())
-                real_os = VV.os
+                real_os = os
                 fake_os = types.SimpleNamespace(**{k: getattr(real_os, k) for k in dir(real_os) if not k.startswith("__")})
 
                 def failing_stat(*a, **k):
                     raise OSError(errno.ESTALE, "Stale file handle")
                 fake_os.stat = failing_stat
-                VV.os = fake_os
+                # `import os` and `from os import stat` in the version module are the same to the harness
+                stat_patch = _Patch()
+                sched.patch_module_use(VV, real_os, fake_os, stat_patch.set)
                 try:
                     return real_vffp(p)
                 finally:
-                    VV.os = real_os
+                    stat_patch.undo()
             return real_vffp(p)
         _patch_function(self.patch, TF, real_vffp, vffp)
         scen = self
